@@ -247,7 +247,9 @@ package http2
 //@   ensures [C13:concurrency-limit-refuses-the-stream-without-a-handler] old(f.HeadersFrame.FrameHeader.StreamID) % 2 == 1 && !(old(mapHas(sc.streams, f.HeadersFrame.FrameHeader.StreamID)) && old(mapGet(sc.streams, f.HeadersFrame.FrameHeader.StreamID)) != nil) && old(f.HeadersFrame.FrameHeader.StreamID) > old(sc.maxClientStreamID) && old(sc.curClientStreams) + 1 > old(sc.advMaxStreams) ==> err.(StreamError) && handlerStarts == old(handlerStarts)
 
 //@ -- what the serve loop maintains between frames, and what the framer guarantees about a frame it hands over
-//@ pure func connInv(sc *serverConn) bool = streamsOK(sc) && inflowOK(sc.inflow) && (forall id uint32 :: mapHas(sc.streams, id) ==> inflowOK(mapGet(sc.streams, id).inflow)) && (forall id uint32 :: mapHas(sc.streams, id) && mapGet(sc.streams, id).state == 1 ==> mapGet(sc.streams, id).body != nil) && connLedger(sc) <= 2147483647 && owedByBodies >= 0 && sc.hs != nil && sc.srv != nil && sc.handler != nil && sc.conn != nil && sc.writeSched != nil && sc.curClientStreams < 4294967295 && hdrCacheOK(sc) && (forall id uint32 :: mapHas(sc.streams, id) ==> mapGet(sc.streams, id).state != 0) && (sc.pingSent ==> sc.readIdleTimer != nil) && sc.unackedSettings >= 0
+//@ -- every registered stream is open or half closed, has its cancel function, and its unread body bytes are owed
+//@ pure func regOK(sc *serverConn) bool = forall id uint32 :: mapHas(sc.streams, id) ==> mapGet(sc.streams, id).state != 0 && mapGet(sc.streams, id).state != 4 && mapGet(sc.streams, id).cancelCtx != nil && (mapGet(sc.streams, id).body != nil ==> unreadOf(mapGet(sc.streams, id).body) <= owedByBodies)
+//@ pure func connInv(sc *serverConn) bool = streamsOK(sc) && inflowOK(sc.inflow) && (forall id uint32 :: mapHas(sc.streams, id) ==> inflowOK(mapGet(sc.streams, id).inflow)) && (forall id uint32 :: mapHas(sc.streams, id) && mapGet(sc.streams, id).state == 1 ==> mapGet(sc.streams, id).body != nil) && connLedger(sc) <= 2147483647 && owedByBodies >= 0 && sc.hs != nil && sc.srv != nil && sc.handler != nil && sc.conn != nil && sc.writeSched != nil && sc.curClientStreams < 4294967295 && hdrCacheOK(sc) && (forall id uint32 :: mapHas(sc.streams, id) ==> mapGet(sc.streams, id).state != 0) && (sc.pingSent ==> sc.readIdleTimer != nil) && sc.unackedSettings >= 0 && regOK(sc)
 //@ pure func frameWF(f Frame) bool = (isptr(WindowUpdateFrame, f) ==> 1 <= unboxptr(WindowUpdateFrame, f).Increment && unboxptr(WindowUpdateFrame, f).Increment <= 2147483647) && (isptr(DataFrame, f) ==> unboxptr(DataFrame, f).FrameHeader.valid && len(unboxptr(DataFrame, f).data) <= unboxptr(DataFrame, f).FrameHeader.Length && unboxptr(DataFrame, f).FrameHeader.Length <= 16777215)
 
 //@ -- C12, client transport: one piece of request body never exceeds the stream/connection windows, the caller's
@@ -285,9 +287,6 @@ package http2
 //@ func (*serverConn).scheduleFrameWrite :: sc
 //@   trusted
 //@   assigns unrestricted
-//@ func (*serverConn).closeStream :: sc, st, err
-//@   trusted
-//@   assigns unrestricted
 //@ func field stream.cancelCtx
 //@   trusted
 //@   assigns nothing
@@ -309,9 +308,9 @@ package http2
 
 //@ func (*serverConn).processResetStream :: sc, f -> err
 //@   props C13,C10
-//@   requires sc != nil && f != nil && streamsOK(sc)
+//@   requires sc != nil && f != nil && streamsOK(sc) && regOK(sc) && sc.srv != nil && sc.writeSched != nil && inflowOK(sc.inflow) && owedByBodies >= 0 && connLedger(sc) <= 2147483647
 //@   requires [C13:registered-streams-are-not-idle] forall id uint32 :: mapHas(sc.streams, id) ==> mapGet(sc.streams, id).state != 0
-//@   assigns unrestricted, procLog
+//@   assigns unrestricted, procLog, owedByBodies
 //@   ghostset procLog = procLog ++ seq[int]{3}
 //@   ensures procLog == old(procLog) ++ seq[int]{3}
 //@   ensures [C13:rst-stream-on-idle-stream-is-protocol-error] !old(mapHas(sc.streams, f.FrameHeader.StreamID)) && old(ite(f.FrameHeader.StreamID % 2 == 1, f.FrameHeader.StreamID > sc.maxClientStreamID, f.FrameHeader.StreamID > sc.maxPushPromiseID)) ==> isConnErr(err, 1)
@@ -341,7 +340,10 @@ package http2
 
 //@ func (*serverConn).startGracefulShutdownInternal :: sc
 //@   trusted
-//@   assigns unrestricted
+//@   requires inflowOK(sc.inflow)
+//@   assigns unrestricted, owedByBodies
+//@   ensures connLedger(sc) == old(connLedger(sc)) && inflowOK(sc.inflow)
+//@   ensures old(len(sc.streams)) == 0 ==> owedByBodies == old(owedByBodies)
 //@ func (*serverConn).processGoAway :: sc, f -> err
 //@   props C13,C10
 //@   requires sc != nil && f != nil
@@ -396,3 +398,46 @@ package http2
 //@   trusted
 //@   assigns unrestricted
 //@   structural [C11:write-request-released-when-serving-ended] sends_selectable wantWriteFrameCh doneServing
+
+//@ -- C12, the other half of the receive ledger: what the handler has read, and what is still unread when a stream is
+//@ -- closed, goes back to the connection window (owedByBodies is settled by exactly that amount)
+//@ writers [C12:request-body-pipe-fixed-at-stream-creation] stream fields body only (*serverConn).processHeaders
+//@ pure func unreadOf(p *pipe) int
+//@ func (*pipe).Len :: p -> n
+//@   trusted
+//@   pure
+//@   ensures n == unreadOf(p) && n >= 0
+//@ func (*serverConn).setConnState :: sc, state
+//@   trusted
+//@   assigns nothing
+//@ func h1ServerKeepAlivesDisabled :: hs -> r
+//@   trusted
+//@   pure
+//@ func closeWaiter.Close :: cw
+//@   trusted
+//@   assigns nothing
+//@ func (*stream).isPushed :: st -> r
+//@   props C13
+//@   requires st != nil
+//@   assigns nothing
+//@   ensures r <==> st.id % 2 == 0
+//@ func WriteScheduler.CloseStream :: ws, streamID
+//@   trusted
+//@   assigns unrestricted
+
+//@ func (*serverConn).noteBodyRead :: sc, st, n
+//@   props C12,C10
+//@   requires sc != nil && st != nil && inflowOK(sc.inflow) && inflowOK(st.inflow)
+//@   requires [C12:read-report-covers-bytes-owed] 0 <= n && n <= owedByBodies && connLedger(sc) <= 2147483647 && W(st.inflow) + n <= 2147483647
+//@   assigns unrestricted, owedByBodies
+//@   ghostset owedByBodies = owedByBodies - n
+//@   ensures [C12:bytes-read-by-the-handler-go-back-to-the-connection-window] connLedger(sc) == old(connLedger(sc)) && inflowOK(sc.inflow)
+
+//@ func (*serverConn).closeStream :: sc, st, err
+//@   props C12,C13,C10
+//@   requires sc != nil && st != nil && sc.streams != nil && sc.srv != nil && sc.writeSched != nil && st.cancelCtx != nil && inflowOK(sc.inflow)
+//@   requires [C13:only-open-streams-are-closed] st.state != 0 && st.state != 4
+//@   requires [C12:unread-body-bytes-are-owed] (st.body != nil ==> unreadOf(st.body) <= owedByBodies) && owedByBodies >= 0 && connLedger(sc) <= 2147483647
+//@   assigns unrestricted, owedByBodies
+//@   ghostset owedByBodies = owedByBodies - ite(old(st.body) != nil, unreadOf(old(st.body)), 0)
+//@   ensures [C12:unread-body-bytes-of-a-closed-stream-go-back-to-the-connection-window] connLedger(sc) == old(connLedger(sc)) && inflowOK(sc.inflow)
